@@ -165,6 +165,38 @@ class SymSeq:
                 for a, b in zip(self.cols, other.cols)]
         return SymSeq(self.n + other.n, cols, self.types, self.arity)
 
+    def vc_sorted(self, eng, kwargs):
+        """sorted(seq): assumed contract (A4) - a permutation of seq in non-decreasing (lexicographic) order,
+        stated for all pairs i < j; permutation through a bijection pi with inverse."""
+        if kwargs:
+            raise Unsupported('sorted() with key/reverse on an unbounded sequence')
+        res = SymSeq.fresh(self.types, self.arity, 'sorted', n=self.n)
+        k = next(_fresh_counter)
+        pi = z3.Function('pi!%d' % k, z3.IntSort(), z3.IntSort())
+        inv = z3.Function('pi_inv!%d' % k, z3.IntSort(), z3.IntSort())
+        i, j = z3.Ints('i!s%d j!s%d' % (k, k))
+        rng = lambda x: z3.And(x >= 0, x < self.n)
+        same = z3.And(*[z3.Select(a, i) == z3.Select(b, pi(i)) for a, b in zip(res.cols, self.cols)])
+        eng.assume(z3.ForAll([i], z3.Implies(rng(i), z3.And(rng(pi(i)), inv(pi(i)) == i, same))))
+        eng.assume(z3.ForAll([i], z3.Implies(rng(i), z3.And(rng(inv(i)), pi(inv(i)) == i))))
+
+        def le(a_idx, b_idx):
+            # lexicographic <= over the leading numeric columns; the order among elements that tie on them is left
+            # unspecified (a weaker assumption than python's full tuple order: sound, and free of string comparisons)
+            cols = []
+            for c, t in zip(res.cols, res.types):
+                if t == STR:
+                    break
+                cols.append(c)
+            expr = z3.BoolVal(True)
+            for c in reversed(cols):
+                x, y = z3.Select(c, a_idx), z3.Select(c, b_idx)
+                expr = z3.Or(x < y, z3.And(x == y, expr))
+            return expr
+        eng.assume(z3.ForAll([i, j], z3.Implies(z3.And(rng(i), rng(j), i < j), le(i, j))))
+        eng.trusted_used.add('sorted (permutation, ascending)')
+        return res
+
     def append(self, v):
         vals = [v] if self.arity is None else list(v)
         if len(vals) != len(self.cols):
